@@ -32,6 +32,8 @@ def log_event(i, with_proc, with_tid):
     if with_proc:
         e['p'] = 0
         e['pid'] = 40 + i
+    # a trace identifier of the log namespace whose general flags have exactly one of unique-pid (0x10) / large-offset (0x20) set
+    e['ti'] = 4 | (((0x10 if i % 3 == 0 else 0x20 if i % 3 == 1 else 0x31)) << 16) | (2 << 24) | ((7 + i) << 32)
     if i % 2 == 0:
         # a decomposed message: a literal, a SCALAR argument whose value (3, also a number of the string index) is not a string, a string
         # argument that is one
@@ -57,6 +59,11 @@ def blk(kind, k, pad=True):
     if kind == 'strings':
         return B.v3_block(B.TAG_LOG_STRINGS, B.bplist({'StringIndex': STRINGS}), pad)
     if kind == 'unknown':
+        if k % 3 == 1:
+            # a block of a kind the tool does not know whose tag shares its FIRST word with the processes tag (a tag is all 8 bytes)
+            return B.v3_block(B.TAG_PROCESSES[:4] + bytes([7, 0, 0, 0]), B.bplist({'Processes': ['FOREIGN']}), pad)
+        if k % 3 == 2:
+            return B.v3_block(B.TAG_IMAGES[:4] + bytes([9, 0, 0, 0]), B.bplist({'Images': ['FOREIGN']}), pad)
         return B.v3_block(bytes([0x77, 0x80, 0, 0, 0, 0, 0, 0]), b'whatever' * (k + 1) + b'!', pad)
     raise KeyError(kind)
 
@@ -174,6 +181,11 @@ def judge(blob, threads, recs, kseq, cpu, parser=None, offset=0, buffered=0):
                     or lg.process != (rev[raw['p']] if 'p' in raw else '')
                     or lg.process_identifier != raw.get('pid', 0)):
                 bad.append(('v3-log-content', {'got': repr(lg)[:300], 'raw': repr(raw)[:300]}))
+                break
+            ti = lg.trace_identifier
+            gen = (raw['ti'] >> 16) & 0xff
+            if ti is None or (bool(ti.has_unique_pid), bool(ti.has_large_offset), bool(ti.has_current_aid), ti.code) != (bool(gen & 0x10), bool(gen & 0x20), bool(gen & 1), raw['ti'] >> 32):
+                bad.append(('v3-log-content:trace-identifier', {'got': repr(ti)[:300], 'word': hex(raw['ti'])}))
                 break
             if 'dm' in raw:
                 segs = (lg.decomposed_message or {}).get('segments') or [{}, {}]
